@@ -135,7 +135,7 @@ class Run:
         out = {}
         skip = set(getattr(self.mod, 'NO_CONCRETE', ()))
         for c in self.R.contracts.values():
-            if self.prop in c.props and c.verify and c.key not in skip and c.qualname not in skip:
+            if self.prop in c.props and c.verify and c.key not in skip and c.qualname not in skip and '*' not in skip:
                 f = self.repo.func(c.module, c.qualname)
                 out['%s:%s' % c.key] = crosscheck.run_contract(c, f, self.R.spec_funcs, getattr(self.R, 'generators', {}),
                                                               n, self.seed)
